@@ -259,7 +259,35 @@ def no_bypass(res: CheckResult, prog: Program):
 
 
 def marker_writers(res: CheckResult, prog: Program, marker: str):
-    res.rules['MARKER-WRITER'] = 'only RunningOrderEnd.merge creates the completion marker element'
+    res.rules['MARKER-WRITER'] = 'only RunningOrderEnd.merge (or a private helper only it calls) creates the completion marker element'
+    # spellings of the marker: the literal itself and module-level constants bound to it (_COMPLETION_TAG = 'mosromgrmeta')
+    consts = set()
+    for m in prog.modules.values():
+        for b in m.tree.body:
+            if isinstance(b, ast.Assign) and isinstance(b.value, ast.Constant) and b.value.value == marker:
+                consts.update(t.id for t in b.targets if isinstance(t, ast.Name))
+
+    def is_marker(c):
+        return (isinstance(c, ast.Constant) and c.value == marker) or (isinstance(c, ast.Name) and c.id in consts and isinstance(c.ctx, ast.Load)) \
+            or (isinstance(c, ast.Attribute) and c.attr in consts)
+    # the writer and the private helpers of its class reachable from it
+    writer = prog.func('RunningOrderEnd.merge')
+    scope, todo = [writer], [writer]
+    while todo:
+        f = todo.pop()
+        for c in ast.walk(f.node):
+            if isinstance(c, ast.Call) and isinstance(c.func, ast.Attribute) and isinstance(c.func.value, ast.Name) and c.func.value.id in ('self', 'cls', 'RunningOrderEnd'):
+                g = writer.cls.find(c.func.attr) if writer.cls is not None else None
+                if g is not None and g not in scope and g.cls is writer.cls and g.name.startswith('_'):
+                    scope.append(g)
+                    todo.append(g)
+    allowed = {f.short for f in scope}
+    for h in scope[1:]:
+        # such a helper belongs to the writer only if nothing else calls it
+        others = [g.short for g in prog.all_functions() if g not in scope and any(
+            isinstance(k, ast.Call) and isinstance(k.func, ast.Attribute) and k.func.attr == h.name for k in ast.walk(g.node))]
+        if others:
+            allowed.discard(h.short)
     n = 0
     for fi in prog.all_functions():
         reads = set()
@@ -270,22 +298,79 @@ def marker_writers(res: CheckResult, prog: Program, marker: str):
             if isinstance(c, ast.Compare):
                 reads.update(id(a) for a in [c.left] + list(c.comparators))
         for c in ast.walk(fi.node):
-            if isinstance(c, ast.Constant) and c.value == marker:
+            if is_marker(c):
                 n += 1
-                par_ok = id(c) in reads or fi.short == 'RunningOrderEnd.merge'
-                res.add('MARKER-WRITER', fi.short, f'use of the literal {marker!r}', par_ok,
+                par_ok = id(c) in reads or fi.short in allowed
+                res.add('MARKER-WRITER', fi.short, f'use of the marker tag {marker!r}', par_ok,
                         '' if par_ok else f'{fi.short} uses the completion marker other than to look it up: only RunningOrderEnd.merge may write it',
                         fi.file, c.lineno)
-    writer = prog.func('RunningOrderEnd.merge')
-    has_writer = any(isinstance(c, ast.Constant) and c.value == marker for c in ast.walk(writer.node))
-    res.add('MARKER-WRITER', writer.short, f'writes the literal {marker!r} that the completion guard reads', has_writer,
-            '' if has_writer else f'the completion guard reads {marker!r} but RunningOrderEnd.merge does not write that literal: writer and reader disagree',
+    has_writer = any(is_marker(c) for f in scope if f.short in allowed for c in ast.walk(f.node))
+    res.add('MARKER-WRITER', writer.short, f'writes the marker tag {marker!r} that the completion guard reads', has_writer,
+            '' if has_writer else f'the completion guard reads {marker!r} but RunningOrderEnd.merge does not write that tag: writer and reader disagree',
             writer.file, writer.node.lineno)
+
+
+def _detect_interpreted(prog: Program):
+    """CLI.detect_file interpreted on a symbolic message whose `completed` is True / False: the printed text, when it folds to a
+    constant, must show the class name and contain "(completed)" exactly for the completed one.  None: not decidable this way."""
+    from .domains import Const, ExtV, ObjE, Ref, Unknown
+    from .engine import Engine
+    from .harness import base_state
+    from .interp import Raise
+
+    class DetectFlow(Engine):
+        def __init__(self, prog, flag):
+            super().__init__(prog, entry='CLI.detect_file', summaries={})
+            self.flag = flag
+            self.lines = []
+
+        def getattr_(self, o, name, st, node):
+            if isinstance(o, Ref) and o.kind == 'obj' and st.get(o.sym).get('%symbolic') is not None:
+                if name == 'completed':
+                    return [(Const(self.flag), st)]
+                if name == '__class__':
+                    return [(ExtV('detect:class'), st)]
+                return [(Unknown('attribute of the detected message'), st)]
+            if isinstance(o, ExtV) and o.name == 'detect:class' and name in ('__name__', '__qualname__'):
+                return [(Const('CLASSNAME'), st)]
+            return super().getattr_(o, name, st, node)
+
+        def on_print(self, st, node, args=(), kwargs=None):
+            self.lines.append([a.v if isinstance(a, Const) else None for a in args])
+
+    fi = prog.func('CLI.detect_file')
+    params = [a.arg for a in fi.node.args.args][1:]
+    if len(params) < 1:
+        return None
+    out = {}
+    for flag in (True, False):
+        eng = DetectFlow(prog, flag)
+        st = base_state(eng)
+        cli = st.new(ObjE(prog.cls('CLI').qualname, (('_args', ExtV('args')),)))
+        mo = st.new(ObjE(prog.cls('MosFile').qualname, (('%symbolic', Const(True)),)))
+        args = [Ref('obj', mo)] + [Const('FILE')] * (len(params) - 1)
+        outs = eng.call_function(fi, args, {}, st, None, self_val=Ref('obj', cli))
+        if any(isinstance(v, Raise) for v, _ in outs) or not eng.lines or any(x is None for ln in eng.lines for x in ln):
+            return None
+        out[flag] = [' '.join(str(x) for x in ln) for ln in eng.lines]
+    return out
 
 
 def detect_completed(res: CheckResult, prog: Program):
     res.rules['DETECT-PRINT'] = 'detect_file prints the class name, and the text "(completed)" only under the condition mo.completed'
     fi = prog.func('CLI.detect_file')
+    try:
+        got = _detect_interpreted(prog)
+    except Exception:
+        got = None
+    if got is not None:
+        res.extra['detect_print_method'] = 'CLI.detect_file interpreted on a message with completed = True / False (printed text folded to constants)'
+        t, f = ' | '.join(got[True]), ' | '.join(got[False])
+        ok = 'CLASSNAME' in t and 'CLASSNAME' in f and '(completed)' in t and '(completed)' not in f
+        detail = '' if ok else f'detect_file prints {got[True]} for a completed running order and {got[False]} otherwise'
+        res.add('DETECT-PRINT', fi.short, 'print(<class name> [+ "(completed)" if mo.completed])', ok, detail, fi.file, fi.node.lineno)
+        return
+    res.extra['detect_print_method'] = 'structural (the printed text did not fold to constants under interpretation)'
     mo = fi.node.args.args[1].arg if len(fi.node.args.args) > 1 else 'mo'
     found = []       # (constant node, polarity list)
 
@@ -672,6 +757,19 @@ def cli_parser_flags(res: CheckResult, prog: Program):
         act = next((k.value.value for k in c.keywords if k.arg == 'action' and isinstance(k.value, ast.Constant)), None)
         for n in names:
             flags[n] = act
+    if '--incomplete' not in flags or '--non-strict' not in flags:
+        # the options are not defined by literal add_argument calls in _get_parser (an option table, a helper): look the two flag
+        # literals up in the module and require 'store_true' in the same call / record; otherwise there is no verdict
+        mod = parser.module.tree
+        for c in ast.walk(mod):
+            if isinstance(c, ast.Call):
+                consts = [a.value for a in ast.walk(c) if isinstance(a, ast.Constant) and isinstance(a.value, str)]
+                for n in ('--incomplete', '--non-strict'):
+                    if n in consts and n not in flags and sum(1 for x in consts if x.startswith('--')) == 1:
+                        flags[n] = 'store_true' if 'store_true' in consts else next((x for x in consts if x.startswith('store') or x in ('count', 'append')), None)
+        if '--incomplete' not in flags or '--non-strict' not in flags:
+            res.error(f'FLAG-PLUMB: the definitions of --incomplete / --non-strict were not found in {parser.short} or its module (idiom not recognised)')
+            return
     ok = flags.get('--incomplete') == 'store_true' and flags.get('--non-strict') == 'store_true'
     res.add('FLAG-PLUMB', parser.short, '--incomplete / --non-strict are store_true flags', ok, '' if ok else f'flag definitions: incomplete={flags.get("--incomplete")}, non-strict={flags.get("--non-strict")}', parser.file, parser.node.lineno)
 
